@@ -31,6 +31,7 @@ func runC17(r *an.Run) {
 	c17SpansAsGiven(r)
 	c17IdentityUnchanged(r)
 	oneFileSet(r, "R7-one-fileset-for-patch-and-targets")
+	c17EditRegions(r)
 }
 
 func c17NoCommentConstructed(r *an.Run) {
